@@ -2,7 +2,7 @@
 """Writes /verif/MANIFEST.json from the table below (kept in one place so it stays valid)."""
 import json, subprocess
 
-HOOK_COMMITS = ["48c2537"]
+HOOK_COMMITS = ["48c2537", "2e3b999"]
 
 CHECKS = {
  "C01": dict(level="model_checking", design="DESIGN.md 5 (C01)",
@@ -18,6 +18,25 @@ CHECKS = {
    note="Trusted: RC11 axioms as implemented (litmus table self-check on every run).",
    technique="exhaustive litmus enumeration; every loom iteration checked against the set of RC11-consistent executions"),
 }
+
+CHECKS.update({
+ "C05": dict(level="model_checking", design="DESIGN.md 5 (C05), appendix C",
+   text="Every program of the LOCK, WAIT and CHAN families up to the stated size: the SC machine searches all reachable states for a deadlock state (no non-spurious step enabled, some thread unfinished); loom must report a deadlock iff one exists, and nothing else.",
+   note="Trusted: SC machine step rules for blocking primitives; a spurious return of Notify::wait is not counted as progress (loom explores the execution without it).",
+   technique="exhaustive program enumeration + explicit-state deadlock search vs. verdict of the real exploration"),
+ "C07": dict(level="model_checking", design="DESIGN.md 5 (C07), 2.4",
+   text="Every program of the LOCK family: every iteration's completion history is replayed on the reference lock automaton (exclusion, try exactness, hand-over ordering made visible through a Relaxed data atomic), the outcome sets must be equal and verdicts agree.",
+   note="Trusted: lock automaton (no writer preference; recursive read locks excluded); linearizability-style acceptor.",
+   technique="exhaustive program enumeration; per-iteration conformance replay on a reference automaton + outcome-set equality"),
+ "C08": dict(level="model_checking", design="DESIGN.md 5 (C08), 2.4",
+   text="Every program of the WAIT family (condvar with and without flag, Notify, park/unpark, joins, notifications early/late/twice/for a thread blocked elsewhere): every iteration's history replayed on the wait/notify automaton, outcome sets equal, deadlock verdicts agree.",
+   note="Trusted: wait automaton of appendix C (FIFO notify_one for outcome equality, any waiter in the acceptor; one spurious credit per sync::Notify).",
+   technique="exhaustive program enumeration; per-iteration conformance replay + outcome-set equality"),
+ "C09": dict(level="model_checking", design="DESIGN.md 5 (C09), 2.4",
+   text="Every program of the CHAN family (1-3 senders, recv/try_recv sequences, receiver drop): every iteration's history replayed on the FIFO automaton, outcome sets equal (so try_recv racing a send shows both results), leak verdicts agree.",
+   note="Trusted: unbounded FIFO automaton; Ok/Err of send is not observed (no disconnection semantics).",
+   technique="exhaustive program enumeration; per-iteration conformance replay + outcome-set equality"),
+})
 
 NOT_YET = {}
 
